@@ -1122,4 +1122,78 @@ repatk_run(Params *p)
 }
 SCENARIO(c04_repatk, "C04", net_cfg, repatk_run);
 
+// ---------------------------------------------------------------------------
+// B'. "send before receive fails with NNG_ESTATE" when the requester has gone
+// away: the reply to a request whose connection is lost is silently dropped
+// (send succeeds), and that consumes the request like any other reply.
+static void
+gone_run(Params *p)
+{
+	nng_socket rep;
+	MUST(nng_rep0_open(&rep));
+	MUST(nng_socket_set_ms(rep, NNG_OPT_RECVTIMEO, 2000));
+	MUST(nng_socket_set_ms(rep, NNG_OPT_SENDTIMEO, 500));
+	int         tr  = (int) p->draw("tr", 0, 2);
+	std::string url = h_url(tr, 59);
+	MUST(nng_listen(rep, url.c_str(), NULL, 0));
+	bool    use_ctx = W(0, 1) != 0;
+	nng_ctx cx;
+	if (use_ctx)
+		MUST(nng_ctx_open(&cx, rep));
+	int rounds = 1 + (int) W(0, 2);
+	for (int r = 0; r < rounds; r++) {
+		nng_socket req;
+		MUST(nng_req0_open_raw(&req));
+		MUST(nng_socket_set_ms(req, NNG_OPT_SENDTIMEO, 1000));
+		MUST(nng_dial(req, url.c_str(), NULL, 0));
+		nng_msg *q = NULL;
+		MUST(nng_msg_alloc(&q, 0));
+		MUST(nng_msg_header_append_u32(q, 0x80000000u | (uint32_t) (r + 1)));
+		MUST(nng_msg_append(q, "ping", 4));
+		MUST(nng_sendmsg(req, q, 0));
+		nng_msg *m = NULL;
+		int      rv = use_ctx ? nng_ctx_recvmsg(cx, &m, 0) : nng_recvmsg(rep, &m, 0);
+		if (rv != 0)
+			VIOL("request_lost", "REP did not receive the request of a connected requester (%d)", rv);
+		nng_msg_free(m);
+		// the requester goes away: before the reply, or not at all
+		bool gone = W(0, 3) != 0;
+		if (gone) {
+			MUST(nng_socket_close(req));
+			if (W(0, 1))
+				sim_quiesce(5000000);
+		}
+		int sends = 2 + (int) W(0, 1);
+		for (int k = 0; k < sends; k++) {
+			nng_msg *a = NULL;
+			MUST(nng_msg_alloc(&a, 0));
+			MUST(nng_msg_append(a, "pong", 4));
+			rv = use_ctx ? nng_ctx_sendmsg(cx, a, 0) : nng_sendmsg(rep, a, 0);
+			if (rv != 0)
+				nng_msg_free(a);
+			sim_event("round %d gone=%d send %d -> %d", r, (int) gone, k, rv);
+			if (k == 0) {
+				if (rv == NNG_ESTATE)
+					VIOL("reply_refused", "REP holds a request, yet its reply was refused with NNG_ESTATE");
+			} else {
+				if (rv == 0)
+					VIOL("second_reply_ok",
+					    "REP %s answered its request (requester %s) and send number %d without a new receive "
+					    "succeeded; it must fail with NNG_ESTATE",
+					    use_ctx ? "context" : "socket", gone ? "gone" : "connected", k + 1);
+				if (rv != NNG_ESTATE)
+					VIOL("second_reply_not_estate", "send without a receive returned %d, expected NNG_ESTATE", rv);
+			}
+		}
+		if (!gone)
+			MUST(nng_socket_close(req));
+		sim_quiesce(3000000);
+		sim_stat("nontrivial", 1);
+	}
+	if (use_ctx)
+		MUST(nng_ctx_close(cx));
+	MUST(nng_socket_close(rep));
+}
+SCENARIO(c04_gone, "C04", NULL, gone_run);
+
 } // namespace
